@@ -30,6 +30,8 @@ class ExprMixin:
     # ------------------------------------------------------------------ truthiness
     def truthy(self, v: V):
         """Python truth value as a z3 Bool."""
+        if isinstance(v, vals.VBottom):
+            return z3.FreshConst(BOOL, "bottom")
         if isinstance(v, VBool):
             return v.t
         if isinstance(v, VNone):
@@ -249,6 +251,8 @@ class ExprMixin:
         return VBool(z3.And(conj) if len(conj) > 1 else conj[0])
 
     def compare(self, op, a: V, b: V):
+        if isinstance(a, vals.VBottom) or isinstance(b, vals.VBottom):
+            return z3.FreshConst(BOOL, "bottom")
         if isinstance(op, ast.Eq):
             return self.py_eq(a, b)
         if isinstance(op, ast.NotEq):
@@ -347,6 +351,8 @@ class ExprMixin:
         return self.binop(node.op, a, b)
 
     def binop(self, op, a, b):
+        if isinstance(a, vals.VBottom) or isinstance(b, vals.VBottom):
+            return vals.BOTTOM
         if isinstance(op, ast.Mod) and isinstance(a, VStr):
             return self.str_percent(a, b)
         a, b = self.unwrap_for_arith(a), self.unwrap_for_arith(b)
@@ -427,7 +433,15 @@ class ExprMixin:
         return self.subscript(base, idx)
 
     def slice(self, base, lo, hi):
+        if isinstance(base, vals.VBottom):
+            return vals.BOTTOM
         b = self.deref(base)
+        if isinstance(b, VNone) and self.spec_mode:
+            return vals.BOTTOM
+        if isinstance(b, VOpt):
+            if not self.spec_mode and self.path.branch(b.isnone):
+                self.raise_builtin("TypeError")
+            b = b.val
         if isinstance(b, VStr):
             return strings.slice_model(self, b, lo, hi)
         if isinstance(b, (VList, VTuple)) and getattr(b, "items", None) is not None:
@@ -450,6 +464,8 @@ class ExprMixin:
         raise Unsupported(f"slice of {b!r}")
 
     def subscript(self, base, idx):
+        if isinstance(base, vals.VBottom) or isinstance(idx, vals.VBottom):
+            return vals.BOTTOM
         b = self.deref(base)
         if isinstance(b, VOpt):
             if self.spec_mode:
